@@ -330,7 +330,8 @@ def errprop(ctx, fn, paths, body, rule="D3-ERRPROP", no_effects_after_error=("::
             returned = p.end[0] == "return" and mentions(p.end[1], lambda s: s == R)
             br = [x for x in uses if "Try>::branch" in x.path]
             sink = [x for x in uses if x.path.split("::")[-1] in ("ok", "unwrap_or", "unwrap_or_default", "unwrap_or_else", "is_ok", "is_err", "err", "unwrap", "expect", "flatten", "filter_map", "map_while")
-                    and ("Result" in x.path or "Option" in x.path or "Iterator" in x.path)]
+                    and ("Result" in x.path or "Option" in x.path or "Iterator" in x.path)
+                    and any(strip_refs(a) == R or (isinstance(strip_refs(a), tuple) and strip_refs(a)[0] == "field" and strip_refs(a)[1] == ("downcast", R, "Some")) for a in x.args)]
             inst = "%s@%s" % (e.path.split("::")[-1], "result")
             key = (e.bb,)
             opt = dty.startswith("std::option::Option<")
